@@ -128,9 +128,10 @@ class ZOracle(object):
                     got.append(1 if v > 0 else -1)
             except Exception:
                 pass
-        for P in self.LADDER:
-            if P < minprec:
-                continue
+        ladder = [P for P in self.LADDER if P >= minprec]
+        if len(ladder) < 3:
+            ladder = [minprec, minprec + 40, minprec + 100, minprec + 220]
+        for P in ladder:
             v, s = self.zmp(t, P)
             if P > self.resolution:
                 self.resolution = P
@@ -275,3 +276,498 @@ def count_changes(points):
         if points[i][1] != points[i - 1][1]:
             c += 1
     return c
+
+
+# ---------------------------------------------------------------------------------------
+# tabulated heights T_k (trusted points of the sweep, inside a gap between zeros) with N(T_k).
+# Produced offline by exactly the Sweep above run from t = 10 (N(10) = 0: the first zero is 14.13) in chunks;
+# every run re-verifies the difference N(T_k+1) - N(T_k) of each block it sweeps.
+# ---------------------------------------------------------------------------------------
+BASE = [
+    (10.0, 0), (278.7677393294386, 125), (471.7464009222871, 250), (647.0077204871302, 375),
+    (812.0037443080066, 500), (970.6081249551894, 625),
+]
+BASE_N = dict((n, t) for t, n in BASE)
+
+GRAM_LAW_FAILURES = [126, 134, 195, 211, 232, 254, 288, 367, 377, 379, 397, 400, 461, 507, 518, 529, 567, 578, 595, 618,
+                     626, 637, 654, 668, 692]
+OTHER_PRECS = [30, 80, 113, 200]
+
+
+def blocks_for(tier):
+    """[(n0, n1)] blocks of zero indices n0 < n <= n1 (both ends tabulated)"""
+    have = sorted(BASE_N)
+    if tier == 'quick':
+        return [(a, b) for a, b in zip(have, have[1:]) if b <= 2000 and b - a == 125]
+    out = [(a, b) for a, b in zip(have, have[1:]) if b <= 10000 and b - a == 125]
+    out += [(a, b) for a, b in zip(have, have[1:]) if a > 10000 and b - a == 50]
+    if 6700 in BASE_N and 6720 in BASE_N:
+        out.append((6700, 6720))
+    return out
+
+
+def shards(tier, seed):
+    bl = blocks_for(tier)
+    k = 16
+    if tier == 'quick':
+        return [{'blocks': [b]} for b in bl]
+    # thorough: blocks dealt round-robin (cost grows slowly with t); the windows above 10^4 are spread as well
+    out = [{'blocks': []} for _ in range(k)]
+    for i, b in enumerate(bl):
+        out[i % k]['blocks'].append(b)
+    return [s for s in out if s['blocks']]
+
+
+# ---------------------------------------------------------------------------------------
+def _tree():
+    import mpmath
+    return mpmath.mp
+
+
+class TreeZ(object):
+    """extra sign source for the brackets: the tree's own siegelz (not its zetazero/nzeros code) at 3p bits"""
+
+    def __init__(self, mp, p):
+        self.mp, self.P = mp, 3 * p
+        self.calls = 0
+
+    def __call__(self, q):
+        mp = self.mp
+        old = mp.prec
+        self.calls += 1
+        try:
+            mp.prec = self.P
+            n, d = q.numerator, q.denominator
+            x = mp.ldexp(mp.mpf(n), -(d.bit_length() - 1))
+            v = mp.siegelz(x)
+            if not v:
+                return None
+            thr = math.log2(64.0 * (1.0 + float(q))) - self.P + 20
+            if mp.mag(v) > thr + 1:
+                return 1 if v > 0 else -1
+            return None
+        except Exception:
+            return None
+        finally:
+            mp.prec = old
+
+
+def select_indices(r, n0, n1, tier, special):
+    allidx = list(range(n0 + 1, n1 + 1))
+    if tier == 'thorough':
+        return allidx
+    want = set()
+    for n in special:
+        for d in (-1, 0, 1):
+            if n0 < n + d <= n1:
+                want.add(n + d)
+    want.update([n0 + 1, n0 + 2, n1 - 1, n1])
+    budget = 46
+    pool = [n for n in allidx if n not in want]
+    r.shuffle(pool)
+    # consecutive pairs so that monotonicity and "between consecutive returned zeros" are exercised
+    while len(want) < budget and pool:
+        n = pool.pop()
+        want.add(n)
+        if n + 1 <= n1:
+            want.add(n + 1)
+    return sorted(want)[:budget + 12]
+
+
+def check_block(mp, rec, r, tier, n0, n1):
+    from vf import refmodel
+    fhalf = (0, 1, -1, 1)
+    t_a, t_b = BASE_N[n0], BASE_N[n1]
+    orc = ZOracle()
+    R = orc.R
+    t0 = time.time()
+    sw = Sweep(orc, t_a, t_b)
+    pts = sw.points
+    local = count_changes(pts)
+    rec.event('grid points evaluated (reference fp Z)', sw.grid + sw.refined)
+    rec.event('trusted points (reference Z at two precisions)', len(pts))
+    rec.event('local extrema refined', len(sw.unresolved) + 0)
+    rec.event('blocks swept', 1)
+    ok_block = (local == n1 - n0 and pts and pts[0][0] == t_a and pts[-1][0] == t_b and not sw.unresolved)
+    if ok_block:
+        rec.event('blocks whose sign-change count equals the tabulated N(T_k+1) - N(T_k)', 1)
+    else:
+        rec.note('block count mismatch', {'block': [n0, n1], 'sign_changes': local, 'unresolved': sw.unresolved[:3],
+                                          'untrusted_runs': sw.untrusted_runs})
+    # cumulative oracle count at every trusted point
+    cum = [0]
+    for i in range(1, len(pts)):
+        cum.append(cum[-1] + (1 if pts[i][1] != pts[i - 1][1] else 0))
+    gaps = {}           # zero count N -> a trusted point t with N(t) = n0 + c
+    for (t, s), c in zip(pts, cum):
+        gaps.setdefault(n0 + c, t)
+
+    # Gram points of the block (reference), with trusted signs -> zeros per Gram interval (sampling emphasis + nzeros heights)
+    rfp = R.fp
+    m_lo = int(math.floor(float(rfp.siegeltheta(t_a)) / math.pi)) + 1
+    m_hi = int(math.floor(float(rfp.siegeltheta(t_b)) / math.pi))
+    gram = []
+    for m in range(m_lo, m_hi + 1):
+        g = float(rfp.grampoint(m))
+        if t_a < g < t_b:
+            s = orc.zsign(g)
+            if s is not None:
+                gram.append((g, s, m))
+    merged = sorted([(t, s, None) for t, s in pts] + gram)
+    special = set(GRAM_LAW_FAILURES)
+    c = 0
+    last_gram = None
+    for i, (t, s, m) in enumerate(merged):
+        if i and merged[i - 1][1] != s:
+            c += 1
+        if m is not None:
+            if last_gram is not None and last_gram[1] == m - 1 and c - last_gram[0] != 1:
+                special.add(n0 + c)          # Gram interval with 0 or >= 2 zeros
+                rec.event('Gram intervals not containing exactly one zero', 1)
+            last_gram = (c, m)
+    rec.event('oracle seconds (sweep)', int(time.time() - t0))
+
+    idxs = select_indices(r, n0, n1, tier, special)
+    p = mp.prec
+    assert p == 53
+    treez = TreeZ(mp, p)
+    zeros = {}
+    brackets = []
+    for n in idxs:
+        case = {'n': n, 'prec': p}
+        try:
+            z = mp.zetazero(n)
+        except Exception as e:
+            rec.case(('zetazero', n, p), True, cls='zetazero/exception')
+            rec.violation('C41/zetazero/exception', 'zetazero(%d) raised %s' % (n, type(e).__name__), case, repr(e), 'a zero')
+            continue
+        if not hasattr(z, '_mpc_'):
+            rec.violation('C41/zetazero/type', 'zetazero does not return an mpc', case, repr(z), 'mpc')
+            continue
+        re_, im_ = z._mpc_
+        cls = 'zetazero/gram-failure-region' if n in special else 'zetazero/regular'
+        rec.case(('zetazero', n, p), True, cls=cls)
+        if tuple(re_) != fhalf:
+            rec.violation('C41/zetazero/real-part', 'real part of zetazero(n) is not exactly 1/2', case, tuple(re_), fhalf)
+        if im_[0] or not im_[1] or im_[3] > p:
+            rec.violation('C41/zetazero/imag-form', 'imaginary part not a positive p-bit number', case, tuple(im_), 'positive, <= %d bits' % p)
+            continue
+        gam = to_fraction(z.imag)
+        zeros[n] = gam
+        brackets.append((n, gam))
+    # brackets around the returned ordinates
+    verdict_points = []
+    for n, gam in brackets:
+        res = bracket_zero(orc, treez, gam, p)
+        case = {'n': n, 'prec': p, 'gamma': float(gam)}
+        if res is None:
+            rec.undecided('sign of Z not resolved next to the returned zero', case)
+            continue
+        lo, hi, slo, shi, k = res
+        if k:
+            rec.maximum('bracket widened by factor 4^k to resolve the sign of Z', k, case)
+        verdict_points.append((lo, slo, ('lo', n, k)))
+        verdict_points.append((hi, shi, ('hi', n, k)))
+    rec.event('bracket signs from the tree siegelz at 3p (second source)', treez.calls)
+    allp = sorted([(Fraction(t), s, None) for t, s in pts] + [(Fraction(g), s, ('gram', m)) for g, s, m in gram] + verdict_points,
+                  key=lambda x: x[0])
+    c = 0
+    count_at = {}
+    for i, (t, s, tag) in enumerate(allp):
+        if i and allp[i - 1][1] != s:
+            c += 1
+        if tag is not None:
+            count_at[tag[:2]] = (c, tag)
+    for n, gam in brackets:
+        if ('lo', n) not in count_at:
+            continue
+        clo, tag = count_at[('lo', n)]
+        chi, _ = count_at[('hi', n)]
+        k = tag[2]
+        case = {'n': n, 'prec': p, 'gamma': float(gam), 'block': [n0, n1]}
+        rec.case(('accuracy', n, p), True, cls='accuracy/bracket 2^(10-p)*4^%d' % k)
+        inside = chi - clo
+        if inside == 0:
+            # no zero of Z within gamma (1 +- 2^(10-p) 4^k): how far is the nearest one?
+            w = nearest_change(orc, gam, p, k)
+            rec.violation('C41/zetazero/imag-accuracy', 'Z does not change sign in the bracket around the returned ordinate',
+                          case, {'nearest sign change within relative': w}, 'sign change within 2^(10-p)', severity=w)
+            continue
+        if k > 0:
+            rec.note('accuracy decided only at a widened bracket', case)
+        if not ok_block:
+            rec.undecided('oracle block count differs from the table: index not decided', case)
+            continue
+        idx = n0 + clo + 1
+        rec.case(('index', n, p), True, cls='index/' + ('gram-failure-region' if n in special else 'regular'))
+        if idx == n and inside == 1:
+            continue
+        if idx > n:
+            rec.violation('C41/zetazero/index-too-late', 'at least n zeros of Z lie below the ordinate returned for index n',
+                          case, {'sign changes below': idx - 1}, n - 1)
+            continue
+        if inside > 1 and idx <= n < idx + inside:
+            rec.undecided('several sign changes inside the bracket', case)
+            continue
+        # fewer sign changes found than n-1: reference release decides whether the tree or the oracle is short
+        try:
+            gr = to_fraction(R.mp.zetazero(n).imag)
+        except Exception:
+            gr = None
+        if gr is not None and abs(gr - gam) <= gam * Fraction(1, 1 << (p - 12)):
+            rec.undecided('oracle found fewer zeros below gamma than the tree and the reference release agree on', case)
+        else:
+            rec.violation('C41/zetazero/index-too-early', 'returned ordinate lies below the n-th sign change of Z and differs from the reference release',
+                          case, float(gam), None if gr is None else float(gr))
+    # monotonic
+    ks = sorted(zeros)
+    for a, b in zip(ks, ks[1:]):
+        if b == a + 1:
+            rec.case(('mono', a), True, cls='monotonic')
+            if not zeros[a] < zeros[b]:
+                rec.violation('C41/zetazero/monotonic', 'zetazero(n) >= zetazero(n+1)', {'n': a}, float(zeros[a]), float(zeros[b]))
+    # conjugates and other precisions (sample)
+    sub = [n for n in idxs if n in zeros]
+    r.shuffle(sub)
+    for n in sub[:4 if tier == 'quick' else 10]:
+        zc = mp.zetazero(-n)
+        rec.case(('conj', n), True, cls='conjugate')
+        z = mp.mpc(0.5, 0)
+        want = (fhalf, (1,) + tuple(mp.zetazero(n)._mpc_[1])[1:])
+        if tuple(map(tuple, zc._mpc_)) != want:
+            rec.violation('C41/zetazero/conjugate', 'zetazero(-n) is not the conjugate of zetazero(n)', {'n': n}, zc._mpc_, want)
+    for n in sub[4:6 if tier == 'quick' else 8]:
+        pp = OTHER_PRECS[(n + n0) % len(OTHER_PRECS)]
+        check_other_prec(mp, rec, orc, n, pp, zeros[n])
+    # nzeros / backlunds at one trusted point of every gap, at Gram points, next to returned zeros
+    heights = []
+    step = 1 if tier == 'thorough' else 1
+    for N, t in sorted(gaps.items())[::step]:
+        heights.append((Fraction(t), N, 'gap'))
+    for g, s, m in gram[::(1 if tier == 'thorough' else 2)]:
+        cc = count_at.get(('gram', m))
+        if cc:
+            heights.append((Fraction(g), n0 + cc[0], 'gram'))
+    for n, gam in brackets:
+        if ('lo', n) in count_at and count_at[('hi', n)][0] - count_at[('lo', n)][0] == 1 and count_at[('lo', n)][1][2] == 0:
+            lo = gam - gam * Fraction(1, 1 << (p - 10))
+            hi = gam + gam * Fraction(1, 1 << (p - 10))
+            heights.append((lo, n0 + count_at[('lo', n)][0], 'below-zero'))
+            heights.append((hi, n0 + count_at[('hi', n)][0], 'above-zero'))
+    if ok_block:
+        check_counts(mp, rec, R, heights, p)
+    else:
+        rec.undecided('oracle block count differs from the table: nzeros not decided', {'block': [n0, n1]})
+    # grampoint
+    for m in range(m_lo, m_hi + 1, 1 if tier == 'thorough' else 3):
+        check_gram(mp, rec, R, m, p)
+    rec.event('reference mp.siegelz evaluations', orc.n_mp)
+    rec.event('oracle sign conflicts', orc.conflicts)
+    rec.maximum('highest precision needed for a trusted sign', orc.resolution, {'block': [n0, n1]})
+
+
+def frac_to_mpf(mp, q):
+    n, d = q.numerator, q.denominator
+    assert d & (d - 1) == 0
+    old = mp.prec
+    mp.prec = max(53, abs(n).bit_length() + 5)
+    try:
+        return mp.ldexp(mp.mpf(n), -(d.bit_length() - 1))
+    finally:
+        mp.prec = old
+
+
+def bracket_zero(orc, treez, gam, p):
+    """trusted signs at gamma (1 -+ 2^(10-p) 4^k) for the smallest k that resolves them"""
+    for k in range(0, 8):
+        e = p - 10 - 2 * k
+        if e < 8:
+            break
+        d = gam * Fraction(1, 1 << e)
+        lo, hi = gam - d, gam + d
+        orc.extra = treez
+        try:
+            slo = orc.zsign(lo, minprec=p + 30, use_fast=False)
+            shi = orc.zsign(hi, minprec=p + 30, use_fast=False) if slo is not None else None
+        finally:
+            orc.extra = None
+        if slo is not None and shi is not None:
+            return lo, hi, slo, shi, k
+    return None
+
+
+def nearest_change(orc, gam, p, k0):
+    """log2 of the relative distance at which Z is first seen to have the other sign (severity of an inaccurate zero)"""
+    for k in range(k0 + 1, 24):
+        e = p - 10 - 2 * k
+        if e < 2:
+            break
+        d = gam * Fraction(1, 1 << e)
+        a, b = orc.zsign(gam - d), orc.zsign(gam + d)
+        if a is not None and b is not None and a != b:
+            return -e
+    return 0
+
+
+def check_other_prec(mp, rec, orc, n, pp, gam53):
+    old = mp.prec
+    case = {'n': n, 'prec': pp}
+    try:
+        mp.prec = pp
+        z = mp.zetazero(n)
+    except Exception as e:
+        rec.violation('C41/zetazero/exception', 'zetazero(%d) raised %s at prec %d' % (n, type(e).__name__, pp), case, repr(e), 'a zero')
+        return
+    finally:
+        mp.prec = old
+    rec.case(('zetazero', n, pp), True, cls='zetazero/prec=%d' % pp)
+    re_, im_ = z._mpc_
+    if tuple(re_) != (0, 1, -1, 1):
+        rec.violation('C41/zetazero/real-part', 'real part of zetazero(n) is not exactly 1/2', case, tuple(re_), (0, 1, -1, 1))
+    if im_[3] > pp:
+        rec.violation('C41/zetazero/imag-form', 'imaginary part has more than p bits', case, im_[3], pp)
+    gam = to_fraction(z.imag)
+    treez = TreeZ(mp, pp)
+    res = bracket_zero(orc, treez, gam, pp)
+    if res is None:
+        rec.undecided('sign of Z not resolved next to the returned zero', case)
+        return
+    lo, hi, slo, shi, k = res
+    if k:
+        rec.maximum('bracket widened by factor 4^k to resolve the sign of Z', k, case)
+    rec.case(('accuracy', n, pp), True, cls='accuracy/prec=%d bracket 2^(10-p)*4^%d' % (pp, k))
+    if slo == shi:
+        rec.violation('C41/zetazero/imag-accuracy', 'Z does not change sign in the bracket around the returned ordinate',
+                      case, {'signs': [slo, shi]}, 'sign change within 2^(10-p)', severity=nearest_change(orc, gam, pp, k))
+        return
+    # same zero as at 53 bits (index): the two brackets must overlap
+    tol = gam53 * Fraction(1, 1 << (min(pp, 53) - 11))
+    if abs(gam - gam53) > tol:
+        rec.violation('C41/zetazero/precision-dependent-index', 'zetazero(n) at another precision is a different zero',
+                      case, float(gam), float(gam53))
+
+
+def check_counts(mp, rec, R, heights, p):
+    rmp = R.mp
+    for q, N, kind in heights:
+        t = frac_to_mpf(mp, q)
+        case = {'t': float(q), 'kind': kind, 'expected': N}
+        try:
+            got = mp.nzeros(t)
+        except Exception as e:
+            rec.case(('nzeros', str(q)), True, cls='nzeros/' + kind)
+            rec.violation('C41/nzeros/exception/' + kind, 'nzeros(t) raised %s' % type(e).__name__, case, repr(e), N)
+            continue
+        rec.case(('nzeros', str(q)), True, cls='nzeros/' + kind)
+        if got != N or not isinstance(got, int):
+            rec.violation('C41/nzeros/' + kind, 'nzeros(t) differs from the number of sign changes of Z below t', case, got, N)
+        if kind in ('gap', 'gram'):
+            # backlunds: S(t) = N(t) - 1 - theta(t)/pi, theta from the reference release at p+60 bits
+            old = rmp.prec
+            rmp.prec = p + 60
+            try:
+                x = rmp.mpf(q.numerator) / q.denominator
+                S = N - 1 - rmp.siegeltheta(x) / rmp.pi
+                try:
+                    b = mp.backlunds(t)
+                except Exception as e:
+                    rec.violation('C41/backlunds/exception', 'backlunds(t) raised', case, repr(e), float(S))
+                    continue
+                from vf.refmodel import to_ref
+                err = abs(to_ref(rmp, b) - S)
+                units = float(err * 2 ** p / max(1, N))
+                rec.case(('backlunds', str(q)), True, cls='backlunds/' + kind)
+                rec.maximum('|backlunds - S| in units of 2^-p max(1,N)', units, case)
+                rec.maximum('|S(t)| seen (Backlund consistency monitor)', float(abs(S)), case)
+                if units > 16.0 + 2.0 ** -20:
+                    rec.violation('C41/backlunds', 'backlunds(t) differs from N(t) - 1 - theta(t)/pi', case, float(b), float(S), severity=units)
+                if abs(S) > 3:
+                    rec.note('implausible S(t): oracle count or table suspicious', case)
+            finally:
+                rmp.prec = old
+
+
+def check_gram(mp, rec, R, m, p):
+    rmp = R.mp
+    case = {'m': m, 'prec': p}
+    try:
+        g = mp.grampoint(m)
+    except Exception as e:
+        rec.case(('gram', m, p), True, cls='grampoint')
+        rec.violation('C41/grampoint/exception', 'grampoint raised %s' % type(e).__name__, case, repr(e), None)
+        return
+    rec.case(('gram', m, p), True, cls='grampoint')
+    from vf.refmodel import to_ref
+    old = rmp.prec
+    rmp.prec = p + 60
+    try:
+        x = to_ref(rmp, g)
+        th = rmp.siegeltheta(x) - m * rmp.pi
+        d1 = rmp.siegeltheta(x, derivative=1)
+        dg = abs(th / d1)                       # distance to the true Gram point (first order; theta'' is tiny)
+        units = float(dg / abs(x) * 2 ** p)
+        rec.maximum('grampoint error in units of 2^-p relative', units, case)
+        if units > 16.0 + 2.0 ** -20:
+            rec.violation('C41/grampoint', 'theta(grampoint(m)) differs from m*pi by more than 2^(4-p) relative in t', case,
+                          float(th), 0.0, severity=units)
+    finally:
+        rmp.prec = old
+
+
+def run_shard(shard, rec):
+    mp = _tree()
+    mp.prec = 53
+    r = G.rng(PROP, shard['seed'], shard['shard'])
+    from vf.instrument import AnchorCount
+    with AnchorCount(rec, ['mpmath.functions.zetazeros:separate_zeros_in_block', 'mpmath.functions.zetazeros:find_rosser_block_zero',
+                           'mpmath.functions.zetazeros:separate_my_zero', 'mpmath.functions.zetazeros:count_to',
+                           'mpmath.functions.zetazeros:gram_index', 'mpmath.functions.zetazeros:nzeros',
+                           'mpmath.functions.zetazeros:zetazero', 'mpmath.functions.zeta:grampoint']):
+        for n0, n1 in shard['blocks']:
+            check_block(mp, rec, r, shard['tier'], n0, n1)
+
+
+def required(agg, tier):
+    miss = []
+    ev = agg['events']
+    nb = ev.get('blocks swept', 0)
+    if not nb:
+        miss.append('no block swept')
+    if ev.get('blocks whose sign-change count equals the tabulated N(T_k+1) - N(T_k)', 0) != nb:
+        miss.append('the oracle sweep disagrees with the table BASE in %d block(s)' % (nb - ev.get('blocks whose sign-change count equals the tabulated N(T_k+1) - N(T_k)', 0)))
+    for c in ('zetazero/regular', 'zetazero/gram-failure-region', 'index/regular', 'nzeros/gap', 'nzeros/gram', 'nzeros/below-zero',
+              'nzeros/above-zero', 'backlunds/gap', 'grampoint', 'conjugate', 'monotonic'):
+        if not agg['classes'].get(c):
+            miss.append('class %s never observed' % c)
+    for a in ('mpmath.functions.zetazeros:separate_zeros_in_block', 'mpmath.functions.zetazeros:count_to'):
+        if a in agg['anchors'] and not agg['anchors'][a]:
+            miss.append('anchor %s never reached' % a)
+    return miss
+
+
+def replay(case, rec):
+    mp = _tree()
+    mp.prec = 53
+    c = case['case']
+    import random
+    r = random.Random(0)
+    if 'block' in c:
+        n0, n1 = c['block']
+        check_block(mp, rec, r, 'thorough' if n1 - n0 <= 60 else 'quick', n0, n1)
+    elif 'm' in c:
+        from vf import refmodel
+        check_gram(mp, rec, refmodel.ref(), c['m'], c.get('prec', 53))
+    elif 't' in c:
+        from vf import refmodel
+        q = Fraction(c['t'])
+        check_counts(mp, rec, refmodel.ref(), [(q, c['expected'], c['kind'])], 53)
+    elif 'n' in c:
+        n = c['n']
+        have = sorted(BASE_N)
+        for a, b in zip(have, have[1:]):
+            if a < n <= b:
+                check_block(mp, rec, r, 'thorough' if b - a <= 60 else 'quick', a, b)
+                return
+        rec.undecided('index outside the tabulated blocks')
+    else:
+        rec.undecided('case not replayable')
